@@ -170,39 +170,63 @@ Proof. repeat split; vm_compute; reflexivity. Qed.
 Print Assumptions C02_nonvacuous.
 
 (* ---------------------------------------------------------------------------------------------------------
-   exec_refines_definition (fragment).  Phys/C02Exec.v models the row iterators of sql/rowexec and sql/iters
-   (table scan, FilterIter, ProjectIter, joinIter inner / left outer, crossJoinIterator, distinctIter,
-   groupByGroupingIter with count / sum / min / max / avg / count-distinct buffers, sortIter, LimitIter,
-   offsetIter, UnionIter, IntersectIter, per-row InSubquery / ExistsSubquery / scalar Subquery) as an executor
-   [exec] of physical plans, and [plan_of] compiles a C02 query to the plan without optimisations.
-   Whenever the definition assigns rows to a query, its plan returns exactly these rows in the same order
-   (hence also the same bag), in every environment of outer rows.
-   _partial: [wf_query] excludes RIGHT JOIN, EXCEPT [ALL] and INTERSECT DISTINCT; queries on which the
-   definition raises an error are not constrained (converse not proved); sortIter is the definition's own
-   stable insertion sort; the hash-lookup join is not produced by [plan_of]; the planner's rewrites are not modelled. *)
-From GMS Require Import Phys.C02Exec Phys.C02ExecProofs.
+   exec_refines_definition.  Phys/C02Exec.v models the row iterators of sql/rowexec and sql/iters (table scan,
+   FilterIter, ProjectIter, joinIter inner / left outer, the transposed right join of planbuilder/factory.go,
+   crossJoinIterator, HashLookup, distinctIter, groupByGroupingIter with count / count-distinct / sum / min /
+   max / avg buffers, sortIter, LimitIter, offsetIter, UnionIter, IntersectIter, ExceptIter, per-row InSubquery /
+   ExistsSubquery / scalar Subquery) as an executor [exec_env] of physical plans; [plan_of] compiles a C02 query
+   to the plan a planner without optimisations builds.  For every database, every environment of outer rows
+   (so also for correlated subqueries) and every query of the C02 grammar: the plan returns rows iff the
+   definition assigns rows, and then the very same rows in the same order (hence the same bag); the plan fails
+   iff the definition raises an error.
+   Side condition [ok_query d q]: none for queries without RIGHT JOIN ([wf_query], see
+   C02_exec_refines_definition_no_right_join); at a RIGHT JOIN the rows of every table of d must have the
+   table's width ([wf_db]) and the set operations in the join's right input must combine equally wide
+   branches ([wt_query]) -- the transposing projection splits rows at a static width.
+   Not part of the statement: which error is raised; real hash collisions (hash keys are the normalised rows);
+   sortIter is the definition's own stable insertion sort (sorting is C04's subject); the analyzer's rewrites
+   (unnesting, join planning, pushdown, caching) -- the hash-lookup join is tied to the nested-loop join by a
+   separate theorem under a key-soundness premise. *)
+From GMS Require Import Phys.C02Exec Phys.C02ExecProofs Phys.C02ExecConverse.
 
-Theorem C02_exec_refines_definition_partial :
+Theorem C02_exec_refines_definition :
   forall d en q rows,
-    wf_query q = true -> eval_query d en q = Ok rows -> exec_env d en (plan_of q) = Ok rows.
-Proof. exact exec_refines_definition. Qed.
-Print Assumptions C02_exec_refines_definition_partial.
+    ok_query d q = true ->
+    (exec_env d en (plan_of q) = Ok rows <-> eval_query d en q = Ok rows).
+Proof. exact exec_agrees_with_definition_ok. Qed.
+Print Assumptions C02_exec_refines_definition.
+
+Theorem C02_exec_refines_definition_no_right_join :
+  forall d en q rows,
+    wf_query q = true ->
+    ok_query d q = true /\ (exec_env d en (plan_of q) = Ok rows <-> eval_query d en q = Ok rows).
+Proof.
+  intros d en q rows W. split; [exact (proj2 (wf_ok_mut d) q W)|exact (exec_agrees_with_definition d en q rows W)].
+Qed.
+Print Assumptions C02_exec_refines_definition_no_right_join.
+
+Theorem C02_exec_fails_iff_definition_fails :
+  forall d en q,
+    ok_query d q = true ->
+    ((exists e, exec_env d en (plan_of q) = Err e) <-> (exists e, eval_query d en q = Err e)).
+Proof. exact exec_fails_iff_definition_fails_ok. Qed.
+Print Assumptions C02_exec_fails_iff_definition_fails.
 
 (* top level: sequence under ORDER BY, bag otherwise (the two comparisons of the differential run) *)
-Theorem C02_exec_refines_definition_bag_partial :
+Theorem C02_exec_refines_definition_bag :
   forall d q rows,
-    wf_query q = true -> eval_query d [] q = Ok rows ->
+    ok_query d q = true -> eval_query d [] q = Ok rows ->
     exists out, exec d (plan_of q) = Ok out /\ Permutation out rows /\
                 (forall q' keys lim, q = QOrder q' keys lim -> out = rows).
 Proof. exact exec_refines_bag. Qed.
-Print Assumptions C02_exec_refines_definition_bag_partial.
+Print Assumptions C02_exec_refines_definition_bag.
 
 (* expressions, including per-row IN / EXISTS / scalar subqueries *)
-Theorem C02_expr_refines_definition_partial :
+Theorem C02_expr_refines_definition :
   forall d en e v,
-    wf_expr e = true -> eval_expr d en e = Ok v -> eval_pexpr d en (cexpr e) = Ok v.
-Proof. exact expr_refines_definition. Qed.
-Print Assumptions C02_expr_refines_definition_partial.
+    ok_expr d e = true -> (eval_pexpr d en (cexpr e) = Ok v <-> eval_expr d en e = Ok v).
+Proof. exact expr_agrees_with_definition_ok. Qed.
+Print Assumptions C02_expr_refines_definition.
 
 (* per-operator facts *)
 Theorem C02_filter_iter_keeps_true_rows :
@@ -211,22 +235,72 @@ Theorem C02_filter_iter_keeps_true_rows :
 Proof. exact filter_iter_true. Qed.
 Print Assumptions C02_filter_iter_keeps_true_rows.
 
-Theorem C02_join_iter_left_pads :
-  forall ev ev' wr L R rows, sub ev ev' ->
-    outer_join (fun rw => holds (ev rw)) (fun l r => l ++ r) (fun l => l ++ nulls wr) L R = Ok rows ->
-    join_iter ev' true wr L R = Ok rows.
-Proof. exact left_join_ok. Qed.
-Print Assumptions C02_join_iter_left_pads.
+Theorem C02_join_iter_is_join :
+  forall f wr L R,
+    join_iter f false wr L R = inner_join (fun rw => holds (f rw)) L R /\
+    join_iter f true wr L R =
+      outer_join (fun rw => holds (f rw)) (fun l r => l ++ r) (fun l => l ++ nulls wr) L R /\
+    inner_join (fun _ => Ok true) L R = Ok (cross_iter L R).
+Proof.
+  intros. split; [exact (join_iter_inner_eq f wr L R)|]. split; [exact (join_iter_left_eq f wr L R)|exact (cross_join_ok L R)].
+Qed.
+Print Assumptions C02_join_iter_is_join.
+
+(* the transposed plan of a RIGHT JOIN: B LEFT JOIN A on the physical rows with the re-indexed condition, then
+   the column projection, gives A RIGHT JOIN B (rows of B of width wr) *)
+Theorem C02_transposed_join_is_right_join :
+  forall ev wl wr L R rows0,
+    (forall r, In r R -> length r = wr) ->
+    join_iter (fun x => ev (transpose_row wr x)) true wl R L = Ok rows0 ->
+    outer_join (fun rw => holds (ev rw)) (fun r l => l ++ r) (fun r => nulls wl ++ r) R L =
+    Ok (map (transpose_row wr) rows0).
+Proof. intros ev wl wr L R rows0. exact (transposed_join_conv ev ev wl wr L R rows0 (fun x v H => H)). Qed.
+Print Assumptions C02_transposed_join_is_right_join.
+
+(* the rows of a query have its static width (used for the transposing projection) *)
+Theorem C02_query_rows_have_static_width :
+  forall d, wf_db d = true ->
+  forall q, wt_query d q = true -> forall en rows, eval_query d en q = Ok rows ->
+  forall r, In r rows -> length r = qwidth d q.
+Proof. exact query_width. Qed.
+Print Assumptions C02_query_rows_have_static_width.
+
+Theorem C02_hash_join_is_nested_loop_join :
+  forall d en lo l r lk rk on L R rows,
+    exec_env d en l = Ok L -> exec_env d en r = Ok R ->
+    (forall x, In x L -> exists k, hash_key (fun rw => mapM (eval_pexpr d (rw :: en)) lk) x = Ok k) ->
+    (forall y, In y R -> exists k, hash_key (fun rw => mapM (eval_pexpr d (rw :: en)) rk) y = Ok k) ->
+    (forall x y, In x L -> In y R -> cond_true (eval_pexpr d ((x ++ y) :: en) on) = Ok true ->
+       exists k, hash_key (fun rw => mapM (eval_pexpr d (rw :: en)) lk) x = Ok (Some k) /\
+                 hash_key (fun rw => mapM (eval_pexpr d (rw :: en)) rk) y = Ok (Some k)) ->
+    exec_env d en (PJoin lo l r on) = Ok rows ->
+    exec_env d en (PHashJoin lo l r lk rk on) = Ok rows.
+Proof. exact hash_join_plan_ok. Qed.
+Print Assumptions C02_hash_join_is_nested_loop_join.
 
 Theorem C02_distinct_iter_is_dedup :
   forall rows, distinct_iter [] rows = dedup row_eqb rows.
 Proof. exact distinct_iter_ok. Qed.
 Print Assumptions C02_distinct_iter_is_dedup.
 
+(* the streaming group table (get-or-create buffers per key, updateBuffers per row, evalBuffers at the end)
+   computes the definition's groups in first-seen order with the definition's aggregates *)
+Theorem C02_group_by_iter_is_grouping :
+  forall (E : Type) (ev ev' : row -> E -> res val) aggsE kf kf' n kept keyed grows,
+    sub kf kf' ->
+    (forall fe, In fe aggsE -> sub (fun rw => ev rw (snd fe)) (fun rw => ev' rw (snd fe))) ->
+    mapM (fun rw => do k <- kf rw; Ok (k, rw)) kept = Ok keyed ->
+    mapM (fun g : row * list row => do avs <- def_avs ev aggsE (snd g); Ok (fst g ++ avs)) (groups_of n keyed) = Ok grows ->
+    group_by_iter kf' (paggs ev' aggsE) n kept = Ok grows.
+Proof. exact (@group_by_ok). Qed.
+Print Assumptions C02_group_by_iter_is_grouping.
+
 Theorem C02_agg_buffer_is_aggregate :
-  forall f args av, agg f args = Ok av ->
-    exists b, foldM (buf_update f) args (buf_init f) = Ok b /\ buf_eval b = av.
-Proof. exact agg_stream. Qed.
+  forall f args,
+    (forall av, agg f args = Ok av ->
+       exists b, foldM (buf_update f) args (buf_init f) = Ok b /\ buf_eval b = av) /\
+    (forall b, foldM (buf_update f) args (buf_init f) = Ok b -> agg f args = Ok (buf_eval b)).
+Proof. intros f args. split; [exact (agg_stream f args)|exact (agg_stream_conv f args)]. Qed.
 Print Assumptions C02_agg_buffer_is_aggregate.
 
 Theorem C02_limit_offset_iter_is_slice :
@@ -234,10 +308,20 @@ Theorem C02_limit_offset_iter_is_slice :
 Proof. exact limit_offset_ok. Qed.
 Print Assumptions C02_limit_offset_iter_is_slice.
 
-Theorem C02_intersect_iter_is_intersect_all :
-  forall l r, intersect_iter l r = inter_all row_eqb l r.
-Proof. exact intersect_iter_ok. Qed.
-Print Assumptions C02_intersect_iter_is_intersect_all.
+Theorem C02_set_op_iters :
+  forall l r,
+    union_iter false l r = set_op SUnion true l r /\
+    union_iter true l r = set_op SUnion false l r /\
+    intersect_iter l r = set_op SIntersect true l r /\
+    distinct_iter [] (intersect_iter l r) = set_op SIntersect false l r /\
+    except_iter false l r = set_op SExcept true l r /\
+    except_iter true l r = set_op SExcept false l r.
+Proof.
+  intros l r. split; [reflexivity|]. split; [exact (distinct_iter_ok (l ++ r))|].
+  split; [exact (intersect_iter_ok l r)|]. split; [exact (intersect_distinct_ok l r)|].
+  split; [exact (except_iter_ok false l r)|exact (except_iter_ok true l r)].
+Qed.
+Print Assumptions C02_set_op_iters.
 
 Theorem C02_in_loop_is_in3 :
   forall x ys, in_loop x ys false false = in3 x ys.
@@ -249,7 +333,10 @@ Print Assumptions C02_in_loop_is_in3.
    FROM t0 LEFT JOIN t1 ON t0.id = t1.id
    WHERE t0.id IN (SELECT DISTINCT id FROM t1) OR EXISTS (SELECT id FROM t1 WHERE t1.amount < t0.id)
    GROUP BY grp HAVING COUNT( * ) >= 1 ORDER BY 1 LIMIT 5 OFFSET 0
-   is in the fragment, the definition gives it two rows, and so does the executor. *)
+   is in the fragment, the definition gives it three rows, and so does the executor; the same for
+   (SELECT id FROM t0 EXCEPT SELECT id FROM t1) UNION ALL (SELECT id FROM t0 INTERSECT SELECT id FROM t1);
+   the hash-lookup join on t0.id = t1.id returns the rows of the nested-loop join;
+   t0 RIGHT JOIN (t1 UNION ALL t1) ON t0.id = t1.id satisfies the side condition and is executed transposed. *)
 Definition ex2_db : db :=
   [(2%nat, [[VInt 1; VInt 10]; [VInt 2; VInt 10]; [VInt 3; VInt 20]; [VNull; VInt 20]; [VInt 5; VNull]]);
    (2%nat, [[VInt 1; VDec 150 2]; [VInt 1; VDec 250 2]; [VInt 3; VDec 400 2]; [VInt 7; VDec 100 2]; [VNull; VDec 999 2]])].
@@ -263,12 +350,26 @@ Definition ex2_q : query :=
             (ECmp OGe (ECol 0 1) (EConst (VInt 1)))
             [ECol 0 0; ECol 0 1; ECol 0 2; ECol 0 3; ECol 0 4; ECol 0 5] false)
          [(0%nat, false)] (Some (5%nat, 0%nat)).
+Definition ex2_ids (t : nat) : query := QSelect (QTable t) (EConst (VInt 1)) [ECol 0 0] false.
+Definition ex2_set : query :=
+  QSetOp SUnion true (QSetOp SExcept false (ex2_ids 0) (ex2_ids 1)) (QSetOp SIntersect false (ex2_ids 0) (ex2_ids 1)).
+Definition ex2_right : query :=
+  QJoin JRight (QTable 0) (QSetOp SUnion true (QTable 1) (QTable 1)) (ECmp OEq (ECol 0 0) (ECol 0 2)).
 Example C02_exec_refines_nonvacuous :
+  ok_query ex2_db ex2_right = true /\ wf_query ex2_right = false /\
+  eval_query ex2_db [] (QSelect ex2_right (ECmp OLe (ECol 0 3) (EConst (VInt 2))) [ECol 0 0; ECol 0 1; ECol 0 2; ECol 0 3] true) =
+    Ok [[VInt 1; VInt 10; VInt 1; VDec 150 2]; [VNull; VNull; VInt 7; VDec 100 2]] /\
+  exec ex2_db (plan_of ex2_right) = eval_query ex2_db [] ex2_right /\
   wf_query ex2_q = true /\
   eval_query ex2_db [] ex2_q =
     Ok [[VNull; VInt 1; VNull; VNull; VNull; VInt 0];
         [VInt 10; VInt 3; VDec 400 2; VDec 150 2; VDec 2000000 6; VInt 1];
         [VInt 20; VInt 1; VDec 400 2; VDec 400 2; VDec 4000000 6; VInt 1]] /\
-  exec ex2_db (plan_of ex2_q) = eval_query ex2_db [] ex2_q.
+  exec ex2_db (plan_of ex2_q) = eval_query ex2_db [] ex2_q /\
+  wf_query ex2_set = true /\
+  eval_query ex2_db [] ex2_set = Ok [[VInt 2]; [VInt 5]; [VInt 1]; [VInt 3]; [VNull]] /\
+  exec ex2_db (plan_of ex2_set) = eval_query ex2_db [] ex2_set /\
+  exec ex2_db (PHashJoin true (PTable 0) (PTable 1) [PCol 0 0] [PCol 0 0] (PCmp OEq (PCol 0 0) (PCol 0 2))) =
+    eval_query ex2_db [] ex2_join.
 Proof. repeat split; vm_compute; reflexivity. Qed.
 Print Assumptions C02_exec_refines_nonvacuous.
